@@ -45,9 +45,19 @@ class Check(PropertyCheck):
         for k in rng.sample(["is_completed mj", "is_completed o", "remaining_operations -", "is_ready -", "history -"],
                             rng.randint(0, 2)):
             lines.append("fobs " + k)
-        lines += [f"fres {b} {rm} {rj}", "fsnap"]
         tr = gen.Tracker(jobs)
         n_acc = 0
+        if rng.random() < 0.15:
+            # the observers the updater will reuse are created in the middle of an earlier episode; the updater itself is
+            # attached after the reset, before the first dispatch of the next episode
+            for _ in range(rng.randint(1, max(1, gen.num_ops(jobs) - 1))):
+                j, p, m = gen.gen_valid_request(rng, tr)
+                tr.take(j)
+                lines.append(f"disp {j} {p} {m}")
+            lines.append("fobs is_completed " + rng.choice(["mj", "-", "mj"]))
+            lines.append("reset")
+            tr.reset()
+        lines += [f"fres {b} {rm} {rj}", "fsnap"]
         n_eps = rng.choice([1, 1, 1, 2, 3, 3])       # later episodes start from the graph updater's stored initial graph
         for ep in range(n_eps):
             while not tr.done():
